@@ -1,8 +1,8 @@
 #!/bin/bash
 # tools/runall.sh [tier] [ids...]  run the claimed checks one after the other, one summary line each.
+cd "$(dirname "$0")/.." || exit 2
 tier=${1:-quick}; shift
-ids=${@:-$(python3 -c "import json; print(' '.join(c['property_id'] for c in json.load(open('/verif/MANIFEST.json'))['checks']))")}
-cd /verif
+ids=${@:-$(python3 -c "import json; print(' '.join(c['property_id'] for c in json.load(open('MANIFEST.json'))['checks']))")}
 for p in $ids; do
   s=$(date +%s)
   out=$(./check $p $tier 2>&1); code=$?
